@@ -41,7 +41,7 @@ def _apalache(ctx):
 
 def run(ctx):
     # (a) exhaustive small-word-width model
-    runs = ctx.pick([(6, 9), (8, 4), (12, 4)], [(6, 9), (8, 9), (10, 4), (12, 5)])
+    runs = ctx.pick([(6, 9), (12, 4)], [(6, 9), (8, 9), (10, 4), (12, 5)])
     for w, maxlen in runs:
         ctx.tlc_mc("data", "IntCodecMC", "IntCodecMC.cfg", consts={"W": w, "MAXLEN": maxlen}, workers=4, timeout=1500)
     # (a') write side: scratch-buffer pool x bufio alignment x interfering call; the order of the code
